@@ -12,12 +12,16 @@ CHECKS = {
          "Partial: the converse direction (no false acceptance) and the applicator/unevaluated keywords are not yet under functional contracts; enum/const/uniqueItems, contains, required, dependent*, patternProperties, $ref targets are covered for safety and frames only. multipleOf and regular expressions are uninterpreted. " + BASE),
  "C02": ("Proved postconditions, for all inputs: isValidSchemaVersion(v) == supported(v) and detectDraft/newResolved select draft-07 exactly for the two draft-07 $schema URIs (spec functions written from the property statement); Validate returns a non-nil error whenever the root's $schema is unsupported, on every path (refusal before validation).",
          "Covers draft detection and refusal only. The draft-07 evaluation rules inside validate ($ref siblings ignored, items array/additionalItems, dependencies), fragment-$id anchors and draft inheritance of loaded documents are not yet under functional contracts. " + BASE),
+ "C04": ("Proved postconditions of forType for every reflect.Type (the per-kind translation table, with tbase = the type left after stripping pointers, nullable = the argument was a pointer): bool/string/float -> the matching JSON type; Int/Int64 -> integer with no bounds; Uint/Uint64/Uintptr -> integer, minimum 0, no maximum; Int8/16/32 and Uint8/16/32 -> integer with exactly the type's extreme values as minimum/maximum (so min and max of every sized integer are accepted, C04, and nothing beyond, C09); interface -> unrestricted; slices -> [\"null\",\"array\"] with an items schema and no length bounds; arrays -> array with minItems = maxItems = the array length; maps -> object with a value schema; structs -> object; pointers add \"null\" to the type list. Proved of fieldJSONInfo against encoding/json's tag rules: omitted iff unexported or tag \"-\"; name = text before the first comma if non-empty else the Go field name (so \"-,\" names the field \"-\"); the option set equals the comma-separated rest (omitempty/omitzero are seen exactly when present).",
+         "Partial: the struct arm's properties/required sets (reflect.VisibleFields order, embedded/shadowed fields, TypeSchemas overrides) are covered for safety and isolation only, and the final step from the table to 'Validate accepts json.Marshal(v)' needs validate's acceptance contract, which is not proved. CloneSchemas and reflect are assumed contracts. " + BASE),
  "C06": ("Proved about the dynamic part of $dynamicRef in validate: the search loop over the evaluation stack stops at the FIRST (outermost) stack entry whose schema resource declares the anchor as dynamic (loop invariant: no earlier entry does; on normal exit no entry does, and then an error is returned); the evaluation stack is maintained exactly: on every return path (all ~50, including error returns and panicking-free defers) the stack has the length and the elements it had on entry, and every recursive call sees the stack extended by exactly the current schema — so no dynamic scope leaks to siblings or to a later Validate call (Validate allocates a fresh state).",
          "Not yet proved: that the schema finally validated is the anchor's schema (the obligation is stated but not discharged within the time limit, so it is not claimed), the static split done by resolveRefs (dynamicRefAnchor set iff the lexical target's anchor is dynamic), and that the verdict then equals that of the target schema. " + BASE),
  "C07": ("Proved for every return path of (*state).validate (≈50 error returns, all loops, all recursive calls): if validate returns an error, the caller's annotations record (all five fields and the contents of both evaluated-* maps) is exactly what it was on entry — evaluations made inside a failing subschema never reach the caller; recursive calls are used through the same contract. Loop invariants carry the fact through all 29 loops.",
          "This is the 'failed subschema does not count' half of the property plus the frame facts (only the final merge writes the caller's record). That the merged record equals the specification's annotation set (which keywords contribute what; not / cousins / child locations) is not yet proved. " + BASE),
  "C08": ("Proved postconditions of the two classification helpers for an arbitrary reflect.Value in the JSON-shaped domain: jsonNumber(v) succeeds exactly when the JSON view jv(v) is a number and then returns exactly its rational value (every int/uint/float kind and json.Number); jsonType(v) returns typeName(jv(v)) for every kind (integer iff the rational is integral). Found and fixed by the name obligation: json.Number was classified as string (926921b).",
          "Only the helpers are covered; that validate's verdict depends on the instance only through jv(instance) needs the functional contract of validate (not yet). jv is axiomatised in /verif/spec/31_jview.gspec from the property statement. " + BASE),
+ "C09": ("Same contracts as C04 read in the rejecting direction: forType's postconditions give, for every type, exactly the type keyword of the kind (so a value of the wrong JSON type cannot pass the type check proved under C01), the exact sized-integer bounds (out-of-range integers are rejected by minimum/maximum, proved sound under C01), minItems = maxItems = array length, and for every struct type — including structs with no fields — additionalProperties set to a schema of the form {\"not\": ...} created by falseSchema (closed objects). The loop invariant carrying closedness through the field loop and fieldJSONInfo's option set (a field is required unless omitempty/omitzero is present) are proved.",
+         "Partial: that Required lists exactly the non-optional visible fields and Properties exactly encoding/json's field set is not proved (reflect.VisibleFields is not modelled); falseSchema's result is only shown to have Not != nil; the decoding side (encoding/json accepts what the schema accepts) is outside the code under contract. " + BASE),
  "C10": ("Zero-panic proof for the Validate call graph: for validate, Validate, annotations.*, merge, jsonNumber, jsonType, isJSONString, equalValue, Equal, the JSON-pointer functions, orderedProperties, basicChecks, forType, property, numPropertiesBounds, wrapf, assert, detectDraft, newResolved, isValidSchemaVersion every nil dereference, index, slice bound, nil-map write, type assertion, explicit panic/assert and every documented reflect/library panic condition (kind, range, key assignability, nil receiver) is an obligation discharged under the stated preconditions (Resolved well-formed, instance JSON-shaped in any representation); the range-over-func protocol panics are proved unreachable. Found and fixed: panic on maps with a named string key type.",
          "Coverage is the Validate call graph only: Resolve, Unmarshal, ApplyDefaults, For/ForType, equalValue/hashValue bodies are swept but not yet fully discharged, so they are not claimed. Termination (no hang) is not proved. Validate's precondition wfRS (what Resolve establishes) is assumed, not yet proved of Resolve. One loop invariant of uniqueItems is on the trusted list (see evidence). " + BASE),
  "C11": ("Proved postconditions of equalValue for every pair of non-wrapper (not pointer/interface) JSON-shaped reflect.Values whose JSON views are scalars: two numbers are Equal exactly when their exact rational values coincide (every int/uint/float kind and json.Number, through jsonNumber's contract: no float rounding), booleans and strings by value, null only equals null, values of different JSON types are never Equal; plus all safety obligations of the array/map/pointer arms and of the recursion. Two defects found by these obligations were fixed (panic on maps with different string key types; json.Number equal to the string that spells it).",
@@ -36,9 +40,7 @@ CHECKS = {
 
 NA = {
  "C03": "not yet claimed: resolver step contracts under construction",
- "C04": "not yet claimed: forType contract against the inference table under construction",
  "C05": "not yet claimed: per-field marshal/unmarshal table obligations under construction",
- "C09": "not yet claimed: depends on the forType contract (C04)",
  "C15": "not yet claimed: applyDefaults contract under construction",
  "C17": "not yet claimed: JSON pointer contracts under construction",
  "C19": "not yet claimed: orderedProperties contract under construction",
